@@ -162,6 +162,7 @@ def run_property(pid, tier="quick", seed=0, only=None, verbose=False, do_bounded
             bmod = None
         if bmod is not None:
             bounded = bmod.run(tier=tier, seed=seed)
+            overflow = []
             for f in bounded.get("failures", []):
                 sig = "bounded:%s" % f["signature"]
                 k = match_known(pid, sig)
@@ -171,11 +172,15 @@ def run_property(pid, tier="quick", seed=0, only=None, verbose=False, do_bounded
                         knowns.append(line)
                     continue
                 nrep += 1
-                if nrep > 60:
-                    continue
-                path = write_replay(pid, nrep, {"property": pid, "kind": "bounded", "signature": f["signature"],
-                                                "case": f.get("case"), "message": f.get("message")})
+                if nrep <= 40:
+                    path = write_replay(pid, nrep, {"property": pid, "kind": "bounded", "signature": f["signature"],
+                                                    "case": f.get("case"), "message": f.get("message")})
+                else:                        # many failing classes: the rest share one replay file (a list of cases)
+                    overflow.append({"property": pid, "kind": "bounded", "signature": f["signature"], "case": f.get("case"), "message": f.get("message")})
+                    path = "replays/%s-more.json" % pid
                 violations.append("VIOLATION property=%s replay=%s bounded-case=%s" % (pid, path, f["signature"]))
+            if overflow:
+                json.dump(overflow, open(os.path.join(ROOT, "replays", "%s-more.json" % pid), "w"), indent=1, default=str)
             # coverage notes of the enumerator (time cuts, regions not evaluated because of an already reported failure):
             # recorded in the evidence, not a verdict
             bnotes = list(bounded.get("undecided", []))
